@@ -1029,4 +1029,16 @@ theorem run_within (cls : Classifier) (adv : Nat → Nat → Obs) :
 theorem fresh_within (b g n md rn rd : Nat) : (Store.fresh b g n md rn rd).Within :=
   ⟨fresh_wf b g n md rn rd, by simp [Store.fresh], by simp [Store.fresh]⟩
 
+/-! ### the caller's view of `consume` in terms of `consumeCore` (used by the translation-agreement theorems) -/
+
+/-- the end of `consume` after `consumeCore`: `_update_state(); return True` on success, `return False` otherwise -/
+def consumeFin (cls : Classifier) (obs : Obs) (r : Store × Branch) : Store × Except Exc Bool :=
+  if r.2.success then thenReturn (updateStateO cls obs r.1) true else (r.1, .ok false)
+
+theorem consumeO_proj (cls : Classifier) (obs : Obs) (s : Store) (cost : Nat) (cur : Cur) (d : Bool) (p : Nat) :
+    ((consumeO cls obs s cost cur d p).1, (consumeO cls obs s cost cur d p).2.1) =
+      consumeFin cls obs (consumeCore s cost cur d p) := by
+  unfold consumeO consumeFin thenReturn
+  cases h : (consumeCore s cost cur d p).2.success <;> simp [h]
+
 end Operon.Atp
